@@ -169,7 +169,7 @@ func cmdCheck(args []string) int {
 		}
 		x := &Exec{Ctx: ctx, Prop: *prop, TopFn: fn, TopKey: k, Contract: ct, instCount: map[string]int{}, sites: map[*ssa.Function]map[ssa.Instruction]string{}, retCover: map[string]bool{}, debug: *debug}
 		x.ClockInstant = ct.ClockInstant
-		x.Faulty = ct.Storage == "faulty"
+		x.Faulty = ct.Storage == "faulty" || *prop == "C13"
 		for _, p := range ct.NoPanic {
 			if p == *prop || p == "*" {
 				x.nopanic = true
